@@ -12,8 +12,12 @@ def SG(i):
                                residue=Ref(f"r{i}"), res_seq=Ref(f"seq{i}"), chain_id=Ref(f"ch{i}")))
 
 
-def CYS(i, with_sg=True):
-    amap = DictOf(("SG", SG(i))) if with_sg else DictOf()
+def CYS(i, with_sg=True, hg=False):
+    pairs = [("SG", SG(i))] if with_sg else []
+    if hg:
+        # pre-protonated input: the thiol hydrogen is already there when bridges are detected
+        pairs.append(("HG", Obj("pdb2pqr.structures:Atom", name=Const("HG"), x=Real, y=Real, z=Real)))
+    amap = DictOf(*pairs)
     return Named(f"r{i}", Obj("pdb2pqr.aa:CYS", map=amap, name=Const("CYS"),
                               res_seq=Named(f"seq{i}", Int), chain_id=Named(f"ch{i}", Str),
                               ss_bonded=Const(0), ss_bonded_partner=Const(None), patches=Items(),
@@ -26,7 +30,10 @@ def OTHER(i):
 
 
 def stub_apply_patch(self, patchname, residue):
+    """(what the contract apply_patch.CYX in patching.py proves of the real function: recorded once, HG gone)"""
     residue.patches.append(patchname)
+    if patchname == "CYX" and "HG" in residue.map:
+        del residue.map["HG"]
 
 
 def d2(a, b):
@@ -46,7 +53,8 @@ def n_close(a, sgs):
 
 
 def bridged(res, partner_sg):
-    return (res.ss_bonded == True and res.ss_bonded_partner is partner_sg and "CYX" in res.patches)
+    return (res.ss_bonded == True and res.ss_bonded_partner is partner_sg and "CYX" in res.patches
+            and "HG" not in res.map)
 
 
 def untouched(res):
@@ -86,4 +94,7 @@ def _shape(name, residues, sgnames, thorough_only=False):
 _shape("two", [CYS(0), CYS(1)], ["sg0", "sg1"])
 _shape("three", [CYS(0), CYS(1), CYS(2)], ["sg0", "sg1", "sg2"])
 _shape("mixed", [CYS(0), OTHER(9), CYS(1, with_sg=False), CYS(2)], ["sg0", "sg2"])
+# pre-protonated cysteines (NMR / MD input): a thiol hydrogen in the input does not hide a bridge; both partners lose it
+_shape("two.one_hg", [CYS(0, hg=True), CYS(1)], ["sg0", "sg1"])
+_shape("two.both_hg", [CYS(0, hg=True), CYS(1, hg=True)], ["sg0", "sg1"])
 _shape("four", [CYS(0), CYS(1), CYS(2), CYS(3)], ["sg0", "sg1", "sg2", "sg3"], thorough_only=True)
